@@ -262,7 +262,7 @@ def run_case(case):
         val = m.group(1).decode('ascii', 'replace')
         if not spec.escaped_ok(val):
             viol('info-unescaped-char', value=val[:200])
-        vol = spec.volume_of(os.path.realpath(tdir), w.mounts)
+        vol, tdir_given = c01.trash_dir_base(case, w, tdir)
         ht = spec.home_trash(w.env())
         is_home = ht is not None and \
             os.path.realpath(ht) == os.path.realpath(tdir)
@@ -296,7 +296,7 @@ def run_case(case):
             return out
         # ---- the readers
         date_txt = m.group(2).decode('ascii').replace('T', ' ')
-        largs = ['--trash-dir', tdir] if '--trash-dir' in case['opts'] else []
+        largs = ['--trash-dir', tdir_given] if '--trash-dir' in case['opts'] else []
         rl = run.run(w, 'list', largs, stdin=b'', contracts=ALLC)
         want_line = '%s %s' % (date_txt, want_loc)
         if want_line not in rl.outtext():
